@@ -82,6 +82,10 @@ def _base_geom(rng, hi):
         Q = _rq(rng)
     else:
         Q = [_rq(rng), _rq(rng)]
+    if m != n and rng.random() < 0.08:
+        q0 = float(_rq(rng))
+        if n * (m * q0 / n) == m * q0:
+            Q = [q0, m * q0 / n]        # rows and columns of different length with the same length*Q
     c = rng.random()
     if c < 0.25:
         out = _rsize(rng, hi)          # scalar: square output
@@ -97,7 +101,20 @@ def _mutate_geom(rng, g, hi):
     g = {"in": list(g["in"]), "Q": g["Q"] if not isinstance(g["Q"], list) else list(g["Q"]),
          "out": g["out"] if not isinstance(g["out"], list) else list(g["out"]),
          "shift": list(g["shift"])}
-    which = rng.choice(["shift", "shift", "Q", "Q", "out", "out", "in", "qtype", "swapio", "swapio"])
+    which = rng.choice(["shift", "shift", "Q", "Q", "out", "out", "in", "qtype", "swapio", "swapio", "same_product",
+                        "same_product"])
+    if which == "same_product":
+        # another input length with the SAME product length*Q on an axis (10 samples at Q=1.5, 12 at 1.25):
+        # identical output grid spacing, output size and shift, different input - whatever is keyed on the
+        # product alone collides
+        qy, qx = (float(g["Q"][0]), float(g["Q"][1])) if isinstance(g["Q"], list) else (float(g["Q"]), float(g["Q"]))
+        m, n = g["in"]
+        m2 = rng.choice([k for k in range(1, hi + 1) if k != m] or [m])
+        n2 = rng.choice([k for k in range(1, hi + 1) if k != n] or [n]) if rng.random() < 0.5 else n
+        qy2, qx2 = m * qy / m2, n * qx / n2
+        if m2 * qy2 == m * qy and n2 * qx2 == n * qx:
+            g["in"], g["Q"] = [m2, n2], [qy2, qx2]
+        return g
     if which == "shift":
         c = rng.random()
         if c < 0.15:
@@ -269,7 +286,7 @@ def generate(rng, tier):
     if enabled["czt"]:
         weights += [("czt2", 5), ("iczt2", 4)]
     if enabled["phys"]:
-        weights += [("ffs", 2), ("ufs", 2)]
+        weights += [("ffs", 2), ("ufs", 2), ("wf_chain", 1)]
     if enabled["fft"]:
         weights += [("focus", 2), ("unfocus", 2)]
     if enabled["clear"]:
@@ -363,6 +380,17 @@ def generate(rng, tier):
             op = {"op": kind, "arr": name, "Q": fq, "wf": rng.random() < 0.4,
                   "efl": rng.uniform(10, 500), "wvl": arrays[name]["wvl"],
                   "dx": arrays[name]["dxp"] if kind == "focus" else arrays[name]["dxf"]}
+        elif kind == "wf_chain":
+            g = rng.choice(pool)
+            m = g["in"][0]
+            M = g["out"] if not isinstance(g["out"], list) else g["out"][0]
+            name = arr_for([m, m])
+            q = float(g["Q"] if not isinstance(g["Q"], list) else g["Q"][0])
+            wvl, dx, z = arrays[name]["wvl"], arrays[name]["dxp"], rng.uniform(10, 500)
+            odx = wvl * z / (m * dx) / q
+            op = {"op": "wf_chain", "arr": name, "dx": dx, "z": z, "wvl": wvl, "odx": odx, "out": M,
+                  "shift": [odx * rng.randint(-3, 3), odx * rng.randint(-3, 3)],
+                  "method": rng.choice(["mdft", "czt"])}
         elif kind == "edit":
             # the user changes one of their own arrays in place (a *= mask, a += ...) between transforms
             if not arrays:
@@ -591,6 +619,26 @@ def execute(plan):
                         del user["wf"][kk]
                     user["wf"][(new, "pupil", op["wvl"], op["dx"])] = w
                     bump(faults, "wavefront_padded_or_cropped_in_place")
+                    dirty = True
+                ev["out"] = "ok"
+            elif kind == "wf_chain":
+                a0 = arrays[op["arr"]]
+                if a0.dtype.kind in "fc" and a0.shape[0] == a0.shape[1]:
+                    m0 = a0.shape[0]
+                    w = pr.Wavefront(np.array(a0, copy=True), op["wvl"], op["dx"], space="pupil")
+                    w2 = w.focus_fixed_sampling(op["z"], op["odx"], op["out"], shift=tuple(op["shift"]), method=op["method"])
+                    # the object that came out of a propagation, propagated on with default arguments ...
+                    back1 = np.asarray(w2.unfocus_fixed_sampling(op["z"], op["dx"], m0, method=op["method"]).data)
+                    # ... against a new Wavefront holding the same field
+                    fresh = pr.Wavefront(np.array(w2.data, copy=True), w2.wavelength, w2.dx, space="psf")
+                    back2 = np.asarray(fresh.unfocus_fixed_sampling(op["z"], op["dx"], m0, method=op["method"]).data)
+                    sc = max(float(np.abs(back2).max()), 1e-300) if back2.size else 1.0
+                    lim = (TOL32 if (prec == 32 or spec_is32(plan["arrays"][op["arr"]])) else 1e-9) * sc
+                    if back1.shape != back2.shape or not bool(np.all(np.abs(back1 - back2) <= lim)):
+                        violations.append({"oracle": "history", "step": i, "other": i, "route": op["method"],
+                                           "err": float(np.abs(back1 - back2).max()) if back1.shape == back2.shape else -1.0,
+                                           "tol": lim, "feat": ["wavefront_from_a_propagation_vs_fresh_wavefront"]})
+                    bump(probes, "wavefront_chain_compared")
                     dirty = True
                 ev["out"] = "ok"
             elif kind == "edit":
